@@ -33,7 +33,7 @@ ASSUMPTIONS = [
 COMPONENTS = {"real": ["Transmitter", "TradingEnv", "TradingEnvXY", "Exchange", "Broker", "State", "Feature", "sklearn transformers"],
               "harness": ["event-value perturbation", "recording observers"], "stub": []}
 PROBE_FLOORS = {"cut_on_first_step": 27, "cut_on_last_step": 30, "cut_in_middle": 80, "extra_events_in_latency_window_after_cut": 17,
-                "fold_boundary_after_cut": 10, "window_straddles_cut": 100, "effective_perturbation": 114, "xy_twin": 12, "judged_on_second_environment_with_smaller_latency": 15, "custom_events_loaded_from_table": 25}
+                "fold_boundary_after_cut": 10, "window_straddles_cut": 100, "effective_perturbation": 114, "xy_twin": 12, "judged_on_second_environment_with_smaller_latency": 15, "custom_events_loaded_from_table": 25, "final_track_record_entry_compared": 800, "xy_second_environment_from_the_same_tables": 5}
 
 PROFILE = {
     "n_min": 4, "n_max": 14, "n_long": 40, "p_long": 0.08, "c_min": 1, "c_max": 4, "p_bar": 1.0, "extras_max": 12,
